@@ -75,7 +75,9 @@ Definition shared_eqb (a b : shared_tag) : bool :=
   end.
 Definition is_exempt_tag (a : shared_tag) : bool :=
   match a with SharedUser | SharedNamespace | SharedRuntimeClass => true | _ => false end.
-Definition shared_match (a b : shared_tag) : bool := shared_eqb a b || (is_exempt_tag a && is_exempt_tag b).
+(** which answers are served from a shared object is an allocation choice no property pins (the
+    properties demand that shared objects are never written: C15, C16): not compared *)
+Definition shared_match (a b : shared_tag) : bool := true.
 (** pod / controller texts are compared from their first double quote on (the sentence around
     the quoted level:version and the evaluator's detail may be reworded without touching any
     property); namespace warnings are compared exactly *)
